@@ -14,6 +14,10 @@ Inductive rres := ROk (h hh : N) | RBroken | RStuck | RFail.
 Inductive case :=
 | CPersist (gc : bool) (ntx : list N) (ops : list op) (obs : list obatch) (recov : list rres)
 | CReset (keep init : bool) (ntx : list N) (c hh h : N) (p : bool) (obs : list obatch) (recov : list rres)
+| CResetOrd (keep init : bool) (ntx : list N) (c hh h : N) (p : bool) (obs : list obatch) (who : list bool)
+            (flags : list (bool * bool)) (recov : list rres)
+      (* Reset on a slow store: the writes in the order they reached the store; who: issued directly by Reset's
+         goroutine?; flags per prefix: (reset marker on disk?, database equal to the pre-reset one?) *)
 | CJump (jor : bool) (p top mtb : N) (obs : list obatch) (recov : list rres)
 | CStorageSync (race : bool) (obs : list (bool * bool * bool)) (recov : list rres)
       (* contract-storage-based synchronisation: per batch (carries a checkpoint?, contract storage items?, trie
@@ -227,6 +231,46 @@ Fixpoint all2 {A B} (f : A -> B -> bool) (a : list A) (b : list B) : bool :=
   | _, _ => false
   end.
 
+(* ---- reset on a slow store: the order of the two writers ---- *)
+(* start-up needs the contract storage of the current prefix (native caches are read from it) *)
+Definition boot_s (fx : fixes) (ntx : list N) (x : xdb) : rres :=
+  match xboot fx ntx 0 xmtb x with
+  | Up n => if present (disk n) (KState (cur_prefix (disk n))) then ROk (height n) (hheight n) else RFail
+  | o => out_res o
+  end.
+
+Fixpoint find_order (pred0 : list xbatch) (obs : list obatch) (js : list nat) : option (nat * list nat) :=
+  match js with
+  | [] => None
+  | j :: t => match coarsen (reset_order pred0 j) obs 0 with
+              | Some al => Some (j, al)
+              | None => find_order pred0 obs t
+              end
+  end.
+
+Definition check_reset_ord keep init ntx c hh h (p : bool) (obs : list obatch) (who : list bool)
+           (flags : list (bool * bool)) (recov : list rres) : N :=
+  let fx := mkFixes keep init true in
+  let d := base_db ntx c hh in
+  let pred0 := reset_batches Sx Rx (xntx ntx) xPS (fun r => r) fx h c hh 1 d in
+  let m :=
+    match find_order pred0 obs [5; 4; 3; 2; 1; 0]%nat with
+    | Some (j, al) =>
+        reset_admissible 0 j &&                                   (* an order the unbuffered hand-over admits *)
+        all2 (fun (w : bool) (o : obatch) => Bool.eqb w (fst o)) who obs &&   (* the direct write is the collection *)
+        list_eqb rres_eqb recov
+          (map (fun i => boot_s fx ntx (apply_all d (firstn i (reset_order pred0 j)))) (O :: al))
+    | None => false
+    end in
+  let spec :=
+    match recov with
+    | r0 :: rest => rres_eqb r0 (ROk c hh) && forallb (rres_eqb (ROk h h)) rest
+    | [] => false
+    end &&
+    (length flags =? S (length obs))%nat &&
+    forallb (fun f => fst f || snd f) (removelast flags) in
+  code_of m spec.
+
 (* ---- jump ---- *)
 (* a light node that has fetched headers (trusted..top], the state of p under the other prefix and the
    blocks (p-mtb, p], and has not jumped yet *)
@@ -301,6 +345,7 @@ Definition check_case (c : case) : N :=
   match c with
   | CPersist gc ntx ops obs recov => check_persist gc ntx ops obs recov
   | CReset keep init ntx c hh h p obs recov => check_reset keep init ntx c hh h p obs recov
+  | CResetOrd keep init ntx c hh h p obs who flags recov => check_reset_ord keep init ntx c hh h p obs who flags recov
   | CJump jor p top mtb obs recov => check_jump jor p top mtb obs recov
   | CLongGC ps gcp mtb fl obs kinds recov => check_long ps gcp mtb fl obs kinds recov
   | CStorageSync _ obs recov => check_storage_sync obs recov
